@@ -144,8 +144,11 @@ impl Child {
                 if tail == "never" {
                     ("p".to_string(), true, vec![])
                 } else if last == Ans::Done {
-                    // polled after completion: observable through the cpoll above; answer harmlessly
-                    (if stream { "n".to_string() } else { "p".to_string() }, true, vec![])
+                    // polled after completion (C03; never happens with the unchanged library): observable through the
+                    // cpoll above.  Like a real child that is not fused, the script does not answer harmlessly: a
+                    // finished stream produces one more item and a finished future resolves again, with a value of
+                    // its own, so that whatever the combinator does with the answer shows in its results too.
+                    (if stream { "gs".to_string() } else { "gr".to_string() }, true, vec![])
                 } else if stream {
                     ("n".to_string(), true, vec![])
                 } else {
@@ -193,6 +196,27 @@ impl Child {
                     ))
                 });
                 Out::Some(v)
+            }
+            "gs" => {
+                let v = Val::new(vid);
+                with(|w| {
+                    w.ev(format_args!(
+                        "{{\"e\":\"cret\",\"c\":{},\"k\":{},\"r\":\"some\",\"ok\":true,\"v\":{}}}",
+                        c, k, vid
+                    ))
+                });
+                Out::Some(v)
+            }
+            "gr" => {
+                let novalue = self.unit;
+                let v = if novalue { Val { id: u64::MAX, magic: 0 } } else { Val::new(vid) };
+                with(|w| {
+                    w.ev(format_args!(
+                        "{{\"e\":\"cret\",\"c\":{},\"k\":{},\"r\":\"ready\",\"ok\":true,\"v\":{}}}",
+                        c, k, if novalue { -1 } else { vid as i64 }
+                    ))
+                });
+                Out::Ready { ok: true, v }
             }
             "n" if stream => {
                 with(|w| {
